@@ -105,7 +105,15 @@ def run(ctx):
         w, smp, cap, tr, ftr = setup(ctx, rts, facts, TH=TH, entries=entries)
         I = w.I
         n0 = len(I.raises)
-        res = I.call(I.getattr(smp, "decay_time"), [target], {})
+        try:
+            res = I.call(I.getattr(smp, "decay_time"), [target], {})
+        except AnalysisError as exc:
+            if "comprehension filter with symbolic condition" in str(exc) and "decay_time" in str(exc):
+                ctx.fail("R4", f"f(t) = sum_k A_k(0) exp(-lam_k t) - target, independent of the rest-time list ({label})",
+                         "decay_time selects the products it sums by a condition on their size (other than 'positive'): a weak long-lived "
+                         "product decides when a low target is reached, so the summed activity is no longer that of all products", site)
+                continue
+            raise
         if "f" not in cap:
             ctx.fail("R1", f"decay_time reaches the root finder ({label})", f"returned {_s(res)} without solving", site)
             continue
